@@ -184,8 +184,10 @@ def run_script(spec_j, steps=('emit',), config=None, profile='debug'):
 def confirm_structure(vio, pid):
     """route for module-level violations: reproduced iff the native comparison reports the same key (or a panic / parse
     error for the panic / rejection keys)"""
-    spec = vio['spec']
+    spec = vio.get('spec')
     model = vio.get('model')
+    if vio.get('spec_json') is not None:
+        model = True
     if model is None and vio.get('pc') is not None:
         import z3
         s = z3.Solver()
@@ -197,7 +199,7 @@ def confirm_structure(vio, pid):
         s = z3.Solver()
         s.check()
         model = s.model()
-    J = witness.spec_json(spec, model)
+    J = vio.get('spec_json') or witness.spec_json(spec, model)
     steps = vio.get('steps', ('emit',))
     config = vio.get('config')
     res = {}
@@ -220,6 +222,10 @@ def confirm_structure(vio, pid):
                 good, info = check(r)
                 res[profile]['native'] = info
                 ok.append(good)
+            elif key.startswith('body.'):
+                mm, info = native_bodies_mismatch(r, vio.get('emit_index', 0))
+                res[profile]['native_body'] = info[:4]
+                ok.append(mm)
             else:
                 keys, bad = native_keys(r, vio.get('emit_index', 0))
                 res[profile]['native_mismatches'] = bad[:8]
@@ -235,7 +241,7 @@ def confirm_structure(vio, pid):
         vio['reproduced'] = None
     else:
         vio['reproduced'] = False
-    for k in ('spec', 'model', 'pc', 'native_check'):
+    for k in ('spec', 'model', 'pc', 'native_check', 'spec_json'):
         vio.pop(k, None)
 
 
@@ -247,6 +253,9 @@ def replay_script(pid, d, path):
         hit = r.get('status') == 'panic'
     elif key == 'parse.rejects':
         hit = r.get('status') == 'parse-error'
+    elif r.get('status') == 'ok' and key.startswith('body.'):
+        hit, info = native_bodies_mismatch(r)
+        print('  ', info[:4])
     elif r.get('status') == 'ok':
         keys, bad = native_keys(r)
         for b in bad[:10]:
@@ -258,3 +267,106 @@ def replay_script(pid, d, path):
         print('VIOLATION property=%s replay=%s' % (pid, path))
         return 1
     return 0
+
+
+# ------------------------------------------------------------------ native body comparison (Debug strings of wasmparser operators)
+_IDX = {'function_index', 'type_index', 'table_index', 'table', 'dst_table', 'src_table', 'global_index', 'local_index', 'data_index', 'elem_index',
+        'mem', 'src_mem', 'dst_mem'}
+
+
+def _opname(s):
+    return re.split(r'[ {(]', s, 1)[0]
+
+
+def _same_dbg(a, b):
+    if _opname(a) != _opname(b):
+        return False
+    fa, fb = _fields(a), _fields(b)
+    for k in fa:
+        if k in _IDX:
+            continue
+        if k == 'blockty' and 'FuncType' in fa[k]:
+            continue
+        if k == 'memarg':
+            ma, mb = _fields(fa[k]), _fields(fb.get(k, ''))
+            if any(ma.get(x) != mb.get(x) for x in ('align', 'offset')):
+                return False
+            continue
+        if fa[k] != fb.get(k):
+            return False
+    return True
+
+
+def native_body_ok(in_ops, out_ops):
+    """same reference matching as bodycmp on Debug strings: True iff out is an admissible image of in"""
+    from .bodycmp import OPENERS, UNCOND
+    # liveness
+    lv = []
+    stack = []
+    cur = {'dead': False, 'opener': None}
+    has_else = {}
+    for i, s in enumerate(in_ops):
+        n = _opname(s)
+        if n in OPENERS:
+            lv.append((s, not cur['dead'], None))
+            stack.append(cur)
+            cur = {'dead': cur['dead'], 'opener': i, 'inh': cur['dead']}
+        elif n == 'Else':
+            inh = cur.get('inh', False)
+            has_else[cur['opener']] = True
+            lv.append((s, not inh, cur['opener']))
+            cur = {'dead': inh, 'opener': cur['opener'], 'inh': inh}
+        elif n == 'End':
+            inh = cur.get('inh', False)
+            lv.append((s, not inh, cur['opener']))
+            if stack:
+                cur = stack.pop()
+        else:
+            lv.append((s, not cur['dead'], None))
+            if n in UNCOND:
+                cur['dead'] = True
+    j = 0
+    kept = {}
+    for i, (s, live, opener) in enumerate(lv):
+        n = _opname(s)
+        if n == 'Nop':
+            if j < len(out_ops) and _opname(out_ops[j]) == 'Nop':
+                j += 1
+            continue
+        if n == 'End' and opener is not None and _opname(in_ops[opener]) == 'If' and not has_else.get(opener) and live and j < len(out_ops) and _opname(out_ops[j]) == 'Else':
+            j += 1
+        if not live:
+            closes = n in ('End', 'Else') and opener is not None
+            if j < len(out_ops) and _same_dbg(s, out_ops[j]) and (not closes or kept.get(opener)):
+                j += 1
+                if n in OPENERS:
+                    kept[i] = True
+            continue
+        if j >= len(out_ops) or not _same_dbg(s, out_ops[j]):
+            return False, 'input op #%d %s vs output #%d %s' % (i, s, j, out_ops[j] if j < len(out_ops) else None)
+        j += 1
+    if j != len(out_ops):
+        return False, 'extra output ops from #%d: %r' % (j, out_ops[j:j + 3])
+    return True, ''
+
+
+def native_bodies_mismatch(r, emit_index=0):
+    """(mismatch?, info): some input body has no admissible image among the output bodies"""
+    ins = r['input']['dump']['code']
+    outs = r['emits'][emit_index]['dump']['code']
+    info = []
+    used = set()
+    for i, b in enumerate(ins):
+        hit = None
+        for j, c in enumerate(outs):
+            if j in used:
+                continue
+            ok, why = native_body_ok(b['ops'], c['ops'])
+            if ok:
+                hit = j
+                break
+        if hit is None:
+            info.append('input function %d has no admissible image in the output' % i)
+        else:
+            used.add(hit)
+    return bool(info) or len(ins) != len(outs), info
